@@ -121,7 +121,7 @@ func runRelayRealPT(c *harness.Ctx) {
 		c.Feature("real-transport-relay-holds-client-conn")
 	}
 	var produced, orGot, clGot int64
-	var clientUp, clientClosed, orDone bool
+	var clientUp, clientClosed, orDone, relayUp bool
 	var clientClosedAt time.Duration
 	ending := false
 	c.S.Go("client/dial", func() {
@@ -178,6 +178,13 @@ func runRelayRealPT(c *harness.Ctx) {
 		if closeDelay > 0 {
 			c.S.Sleep(closeDelay)
 		}
+		// not before the relay's own handshake call has returned: with the end
+		// of the stream delivered in the same read as the last handshake bytes
+		// the obfs4 handshake code drops those bytes (DESIGN.md 9.7; a real TCP
+		// socket never does that) - the data phase is what this part is about
+		for k := 0; k < 3000 && !relayUp; k++ {
+			c.S.Sleep(10 * time.Millisecond)
+		}
 		conn.Close()
 		clientClosed, clientClosedAt = true, c.S.Now()
 	})
@@ -228,6 +235,7 @@ func runRelayRealPT(c *harness.Ctx) {
 			}
 			return
 		}
+		relayUp = true
 		ret = copyLoop(lo.B, conn)
 		returned = true
 	})
